@@ -30,7 +30,7 @@ type C03Plan struct {
 	Hostile []HostileMsg `json:"hostile,omitempty"`
 	// Garbage: when set the remote sends just these bytes and then stops.
 	Garbage []byte `json:"garbage,omitempty"`
-	Layer   string `json:"layer"` // label only (evidence): raw handshake proposal answer frame payload message garbage none
+	Layer   string `json:"layer"` // label only (evidence): raw handshake proposal answer frame payload message garbage lines leave none
 }
 
 // crc16x is CRC-16/XMODEM (poly 0x1021, init 0), bitwise.
@@ -200,7 +200,7 @@ func genC03(tier string, r *core.Rand) C03Plan {
 		p.Peer.Mut = append(p.Peer.Mut, b2f.Mutation{Kind: kind, Nth: nth, Op: op, Arg: arg, Val: val, Bytes: b})
 	}
 	lineKinds := []string{"motd", "sid", "pq", "fw", "prompt", "comment", "pm", "proposal", "fprompt", "fs", "ff", "fq"}
-	layer := r.Pick(2, 3, 3, 2, 3, 3, 3, 1, 1)
+	layer := r.Pick(2, 3, 3, 2, 3, 3, 3, 1, 1, 3)
 	switch layer {
 	case 0: // raw: in-flight edits of the peer's byte stream
 		p.Layer = "raw"
@@ -318,6 +318,26 @@ func genC03(tier string, r *core.Rand) C03Plan {
 			for i, n := 0, r.Range(1, 20); i < n; i++ {
 				p.Garbage = append(p.Garbage, genHostileLine(r)...)
 			}
+		}
+	case 9: // the remote goes away (EOF) at a chosen point inside a unit of an otherwise conforming session
+		p.Layer = "leave"
+		kind := core.Choice(r, []string{"hdr", "hdr", "hdr", "block", "block", "eot", "proposal", "fprompt", "fs", "ff", "sid", "pq", "prompt", "fw", "pm"})
+		if kind == "pm" {
+			p.Peer.PM = true
+		}
+		if kind == "pq" && p.Peer.Challenge == "" {
+			p.Peer.Challenge = "12345678"
+		}
+		nth := r.Pick(5, 2, 1)
+		switch r.Pick(4, 3, 2, 3) {
+		case 0:
+			mut(kind, nth, "stop", r.Intn(8), 0, nil)
+		case 1:
+			mut(kind, nth, "stop", -r.Intn(4), 0, nil)
+		case 2:
+			mut(kind, nth, "stop", r.Intn(300), 0, nil)
+		case 3: // right behind a delimiter
+			mut(kind, nth, "stop", r.Pick(4, 2, 1), 0, []byte{core.Choice(r, []byte{0, 0, ' ', '\r', 1, 2, 4, '-', ':'})})
 		}
 	case 8: // several random line replacements anywhere
 		p.Layer = "lines"
